@@ -318,6 +318,32 @@ def handleLn : List String → String
       | some _ => "resolved"
       | none => "unresolved"
     | _ => "no-directive"
+  | "pkg" :: pkg :: files =>
+    -- files: `name|unsafe|node|commenthex` (at most one directive per file; node `none` = no directive)
+    match ofHex pkg with
+    | none => "bad-op"
+    | some pk =>
+      let parsed := files.filterMap fun f =>
+        match f.splitOn "|" with
+        | [name, uns, node, com] =>
+          if node == "none" then some (name, (⟨[], []⟩ : FileResult))
+          else match parseNode node, ofHex com with
+            | some nd, some c => some (name, parseFileComments pk (uns == "1") (fun _ => nd) [c])
+            | _, _ => none
+        | _ => none
+      if parsed.length != files.length then "bad-op" else
+      -- the files are processed in `Sources.Sort` order
+      let order := GV.Link.sortFiles (parsed.map (·.1))
+      let inOrder := order.filterMap fun n => parsed.find? (·.1 == n)
+      let r := parsePackage (inOrder.map (·.2))
+      if !packageRejected (inOrder.map (·.2)) then "built"
+      else
+        let first := match inOrder.find? (fun f => !f.2.errs.isEmpty) with
+          | some f => f.1
+          | none => "?"
+        match r.errs with
+        | e :: _ => s!"{showDecision e}@{first} n={r.errs.length}"
+        | [] => "built"
   | ["conflict"] =>
     -- package m: `//go:linkname f m/lib.impl1`, `//go:linkname f m/lib.impl2`, `//go:linkname g m/lib.impl3`
     let f : Sym := ⟨"m".toList, "f".toList⟩
